@@ -300,16 +300,16 @@ Section Syncer.
   Definition ginit : gstate := mkg init_state [].
   Definition grun (fl : flavour) (inputs : list sync_input) : gstate := fold_left (gstep fl) inputs ginit.
 
-  (* The property's assumption on the next observed head, relative to what is synced: the new
-     view agrees with the synced one on everything at least the assumed reorg depth below the
-     synced block (on everything up to the position itself while a rollback is being resynced),
-     and if it departs from the synced chain at or below the synced block then its head is at
-     most one past the synced block. *)
+  (* The property's assumption on the next observed head, relative to the recorded position k
+     (whether its hash is known or, after a rollback whose resync has not completed yet, empty):
+     the new view agrees with the synced one on everything at least the assumed reorg depth below
+     the position, and if it departs from the synced chain at or below the position then its head
+     is at most one past the position. *)
   Definition head_ok (fl : flavour) (g : gstate) (v : view) : Prop :=
     match st_status (g_st g) with
     | None => True
     | Some (k, h) =>
-        agree_upto (g_view g) v (match h with [] => k | _ => Z.max 0 (k - fl_depth fl) end) /\
+        agree_upto (g_view g) v (Z.max 0 (k - fl_depth fl)) /\
         (head_number v <= k + 1 \/ agree_upto (g_view g) v k)
     end.
 
